@@ -127,6 +127,17 @@ func KeyIndexes(name string, args [][]byte) ([]int, bool) {
 			return []int{0, 1}, true
 		}
 		return nil, false
+	case "bitop": // BITOP <op> <dest> <src> ...
+		var idx []int
+		for i := 1; i < len(args); i++ {
+			idx = append(idx, i)
+		}
+		return idx, len(idx) > 0
+	case "xgroup", "xinfo": // <subcommand> <key> ...
+		if len(args) >= 2 {
+			return []int{1}, true
+		}
+		return nil, false
 	case "eval", "evalsha", "fcall":
 		if len(args) < 2 {
 			return nil, false
